@@ -1,5 +1,5 @@
 // ======================================================================================
-// prelude/fmt_option.rs — `{:?}` of an `Option<T>` inside `format!` (location.rs formats
+// prelude/fmt_option.rs - `{:?}` of an `Option<T>` inside `format!` (location.rs formats
 // `self.function.index(): Option<usize>` into its "Could not find instruction" error text).
 // vstd (0.2026.09.13) guards every formatting call with `fmt_req` ("this value's fmt impl may be
 // called"); it discharges that for the primitive types through `fmt_req_all::<T>()` axioms but has
